@@ -110,6 +110,45 @@ impl Project {
         }
         self.set_file(path, data);
     }
+    /// Resolve a tree-relative path the way the operating system does: components left to right,
+    /// `..` pops the already resolved (symlink-free) prefix, a component that is a planted symlink
+    /// is replaced by its (relative) target. None if the path leaves the tree.
+    pub fn resolve(&self, path: &str) -> Option<String> {
+        let links: std::collections::BTreeMap<&str, &str> = self
+            .entries
+            .iter()
+            .filter_map(|e| match e {
+                Entry::Symlink { path, target } => Some((path.as_str(), target.as_str())),
+                _ => None,
+            })
+            .collect();
+        let mut todo: Vec<String> = path.split('/').rev().map(|s| s.to_string()).collect();
+        let mut done: Vec<String> = vec![];
+        let mut budget = 64;
+        while let Some(c) = todo.pop() {
+            match c.as_str() {
+                "" | "." => {}
+                ".." => {
+                    done.pop()?;
+                }
+                _ => {
+                    done.push(c);
+                    let cur = done.join("/");
+                    if let Some(t) = links.get(cur.as_str()) {
+                        budget -= 1;
+                        if budget == 0 || t.starts_with('/') {
+                            return None;
+                        }
+                        done.pop();
+                        for part in t.split('/').rev() {
+                            todo.push(part.to_string());
+                        }
+                    }
+                }
+            }
+        }
+        Some(done.join("/"))
+    }
     pub fn files(&self) -> impl Iterator<Item = (&str, &B)> {
         self.entries.iter().filter_map(|e| match e {
             Entry::File { path, data } => Some((path.as_str(), data)),
